@@ -9,6 +9,7 @@ import logging
 import gzip
 
 from .common import (
+    open_gzipped_text_output,
     CANONICAL_FWD_SITES,
     CANONICAL_REV_SITES,
     argmin,
@@ -60,7 +61,7 @@ class AbstractAssignmentPrinter:
         self.output_file_name = output_file_name
         self.gzipped = gzipped
         if gzipped:
-            self.output_file = gzip.open(output_file_name + ".gz", "wt")
+            self.output_file = open_gzipped_text_output(output_file_name + ".gz")
         else:
             self.output_file = open(self.output_file_name, "w")
 
